@@ -2223,17 +2223,10 @@ func (p *Posix) ListMultipartUploads(_ context.Context, mpu *s3.ListMultipartUpl
 	}
 
 	maxUploads := int(*mpu.MaxUploads)
-	if (uploadIDMarker != "" && !uploadIdMarkerFound) || (keyMarker != "" && keyMarkerInd == -1) {
-		return s3response.ListMultipartUploadsResult{
-			Bucket:         bucket,
-			Delimiter:      delimiter,
-			KeyMarker:      keyMarker,
-			MaxUploads:     maxUploads,
-			Prefix:         prefix,
-			UploadIDMarker: uploadIDMarker,
-			Uploads:        []s3response.Upload{},
-		}, nil
-	}
+	// the markers are a position in the (key, upload id) order, not the
+	// name of an upload that has to exist (it may have been completed or
+	// aborted since the previous page)
+	_, _ = keyMarkerInd, uploadIdMarkerFound
 
 	// uploads are listed by key, then by upload id
 	sort.SliceStable(uploads, func(i, j int) bool {
